@@ -58,6 +58,8 @@ def _sources(draw):
                 if "polarization" in s and draw(st.booleans()):
                     s["polarization"] = draw(gen.excitation_vec())
                 out.append(s)
+            elif mode == "same_class" and draw(st.booleans()):
+                out.append(draw(gen.variant_of(first)))
             else:
                 out.append(draw(gen.source_spec(classes=[cls], max_path=4, L=L, pos_extent=1.0)))
         if draw(st.booleans()):
